@@ -54,7 +54,9 @@ NODE_LEVEL = [n for n in WRAPPERS if 'individual_based' in n or 'pair_based' in 
 
 @st.composite
 def ode_case(draw, name=None):
-    c = draw(ac.analytic_case(names=([name] if name else (NODE_LEVEL if draw(st.integers(0, 3)) == 0 else WRAPPERS)), nmax=10, labels=('int',), selfloops=True, weights=True))
+    hub = draw(st.integers(0, 3)) == 0          # a node adjacent to everybody among 10-13 nodes: degree values 8 or more apart
+    c = draw(ac.analytic_case(names=([name] if name else (NODE_LEVEL if draw(st.integers(0, 3)) == 0 else WRAPPERS)), nmax=13 if hub else 10,
+                              labels=('int',), selfloops=True, weights=True, family='hub' if hub else None))
     c['bij'] = draw(bijection(c['gc']['nodes']))
     return c
 
